@@ -79,6 +79,8 @@ pub enum Op {
     /// E2 watcher: from here on notifications are lost and polls are answered
     /// promptly; the height must catch up within one poll interval.
     CatchupMark,
+    /// Several operations executed in one step, before the plugin runs again.
+    Multi { ops: Vec<Op> },
 }
 
 fn one() -> u64 {
@@ -107,6 +109,7 @@ impl Op {
             Op::Freeze { .. } => "freeze",
             Op::Comp { .. } => "comp",
             Op::CatchupMark => "catchup-mark",
+            Op::Multi { .. } => "multi",
         }
     }
 
